@@ -550,6 +550,10 @@ def _run_case(case, follow_f19c):
         viol('value', 'grid of eaopack has %d steps / dt %s, the reference computes %d / %s' % (
             rec['tg'].T, list(rec['tg'].dt[:4]), G.T, list(G.dt[:4])))
         return r
+    if len(rec['op'].c) == 0:
+        # no asset is active in the horizon: nothing to optimise (cvxpy refuses an empty variable; subject of C08)
+        feats.append('empty-problem')
+        return r
     pf.solve_rec(rec)
     res = rec['res']
     if isinstance(res, str) and ref['status'] == 'optimal':
